@@ -8,6 +8,7 @@ import PcVerif.Lemmas.RollupLemmas
 import Mathlib.Tactic.Linarith
 import Mathlib.Tactic.NormNum
 import Mathlib.Tactic.Positivity
+import PcVerif.Lemmas.PopOnLemmas
 namespace PcVerif.Props.C05
 open PcVerif PcVerif.Scc
 
@@ -79,5 +80,29 @@ example : styles (formatItalics [⟨.ioff, [], (1, 0)⟩, ⟨.ion, [], (1, 0)⟩
     nodes and trailing breaks, and trim blanks at line ends -/
 theorem formatItalics_keeps_characters (coll : List INode) :
     vis (itext (formatItalics coll)) = vis (itext coll) := ivis_formatItalics coll
+
+/-! ### doubled codes -/
+
+/-- **C05 (the second copy of a doubled code is dropped).** in EVERY state of the reader whose doubling memory holds the word
+    just read: a control code (other than backspace), a preamble or a special character that repeats it changes nothing but
+    the doubling memory and the frame count — no buffer, no position, no stored caption, no mode -/
+theorem second_copy_dropped (r : Reader) (w : String) (nxt : Option String)
+    (hdt : ((w != "94a1" && isCommand w) || isPac w || (special w).isSome) = true) (h : r.lastCmd = w) :
+    word r w nxt = { r with dbl := if isCueStarting w then true else r.dbl, lastCmd := "", frames := r.frames + 1 } :=
+  SccW.word_swallowed r w nxt hdt h
+
+/-- **C05 (a doubled control code counts once).** a control code or preamble sent twice after a character word (or with
+    nothing remembered) acts exactly once: the reader continues with the rest of the words from the state the single
+    execution leaves, the doubling memory cleared -/
+theorem doubled_control_counts_once (r : Reader) (w : String) (ws : List String) (hc : SccW.Ctl w) (hq : SccW.Quiet r.lastCmd)
+    (hl : (command (SccW.firstCopy r w) w (some w)).lastCmd = w) :
+    ∃ r', words r (w :: w :: ws) = words r' ws ∧ r'.lastCmd = "" ∧
+      r'.active = (command (SccW.firstCopy r w) w (some w)).active ∧
+      SccW.heldQ r' = SccW.heldQ (command (SccW.firstCopy r w) w (some w)) ∧
+      r'.buf = (command (SccW.firstCopy r w) w (some w)).buf :=
+  SccW.ctl_pair r w ws hc hq hl
+
+/-- non-vacuity: the fixed control words and the 15 row preambles the writer sends are such control codes -/
+example : SccW.Ctl "94ae" ∧ SccW.Ctl "9420" ∧ SccW.Ctl "942c" ∧ SccW.Ctl "942f" := SccW.ctl_fixed
 
 end PcVerif.Props.C05
